@@ -139,6 +139,8 @@ def classify(cls, where, deck):
             return 'fill_array_surplus_2_void'
     if cls == 'fill_array_surplus_tr':
         return 'fill_array_surplus_tr'
+    if cls == 'cone_selector':
+        return 'cone_selector_not_unit'
     if cls == 'facet_range_skipped':
         return 'facet_unchecked_in_skipped_cell'
     if cls == 'facet_zero':
@@ -164,6 +166,30 @@ WITNESSES = {
         't\n1 0 -1 2 u=1 lat=1 fill=0:1 0:0 0:0 0 0 40 40 imp:n=1\n'
         '2 0 -5 6 fill=1 imp:n=1\n3 0 -6 imp:n=1\n4 0 5 imp:n=0\n\n'
         '1 px 1\n2 px -1\n5 so 10\n6 so 0.5\n\n', []),
+    'cone_selector_not_unit': (
+        't\n1 0 -1 imp:n=1\n2 0 1 imp:n=0\n\n1 kz 0 1 2\n\n', []),
+    'hex_lattice_nonprism_hang': (
+        't\n1 0 11 12 -13 14 15 16 u=1 lat=2 fill=0:1 0:1 0:0 2 2 2 2 imp:n=1\n'
+        '2 0 -5 6 fill=1 imp:n=1\n3 0 -6 u=2 imp:n=1\n4 0 -6 imp:n=1\n'
+        '5 0 5 imp:n=0\n\n11 p 0.5 0.5 -0.5 -2.0\n12 p 1.0 -0.5 -1.0 0.5\n'
+        '13 p 0.0 2.0 -1.0 0.5\n14 p 1.0 -1.0 1.0 -0.5\n15 p 2.0 -0.5 0.0 1.0\n'
+        '16 p 1.0 2.0 0.5 0.5\n5 so 10\n6 so 0.5\n\n', []),
+    'anonymous_error_surface_arity': (
+        't\n1 0 -1 imp:n=1\n2 0 1 imp:n=0\n\n1 kz 1\n\n', []),
+    'anonymous_error_tr_arity': (
+        't\n1 0 -1 imp:n=1\n2 0 1 imp:n=0\n\n1 so 1\n\n'
+        'tr4 0 0 0 1 0 0 0 1\n', []),
+    'anonymous_error_fill_surplus': (
+        't\n1 0 -1 2 -3 4 u=1 lat=1 fill=0:1 0:1 0:0 2 2 2 2 9 imp:n=1\n'
+        '2 0 -5 fill=1 imp:n=1\n3 0 -6 u=2 imp:n=1\n4 0 5 imp:n=0\n\n'
+        '1 px 1\n2 px -1\n3 py 1\n4 py -1\n5 so 10\n6 so 0.5\n\n', []),
+    'anonymous_error_hex_planes': (
+        't\n1 0 -11 12 -13 14 -15 16 -17 u=1 lat=2 fill=0:1 0:1 0:0 2 2 2 2 imp:n=1\n'
+        '2 0 -5 6 fill=1 imp:n=1\n3 0 -6 u=2 imp:n=1\n4 0 -6 imp:n=1\n'
+        '5 0 5 imp:n=0\n\n11 px 1\n12 px -1\n'
+        '13 p 0.5 0.8660254037844386 0 1\n14 p 0.5 0.8660254037844386 0 -1\n'
+        '15 p -0.5 0.8660254037844386 0 1\n16 p -0.5 0.8660254037844386 0 -1\n'
+        '17 pz 2\n5 so 10\n6 so 0.5\n\n', []),
     'facet_unchecked_in_skipped_cell': (
         't\n1 0 -1 imp:n=1\n2 0 1 -2.9 imp:n=0\n3 0 2 imp:n=0\n\n'
         '1 so 1\n2 rcc 0 0 0 0 0 5 3\n\n', []),
@@ -410,11 +436,61 @@ def impl_material(toks):
                          and None)
 
 
+class WatchdogTimeout(Exception):
+    '''The conversion did not end within the allowed time.'''
+
+
+def _alarm(_signum, _frame):
+    raise WatchdogTimeout('conversion still running')
+
+
+def convert_watchdog(text, args, secs=8.0):
+    '''impl.convert under a wall-clock watchdog (a generated deck converts in
+    ~10 ms; the hexVertices loop never ends on some malformed plane lists).
+    impl.convert catches the exception: conv.exc == 'WatchdogTimeout'.'''
+    import signal
+    old = signal.signal(signal.SIGALRM, _alarm)
+    signal.setitimer(signal.ITIMER_REAL, secs)
+    try:
+        with warnings.catch_warnings():
+            warnings.simplefilter('ignore')
+            return impl.convert(text, args, keep_stdout=False)
+    finally:
+        signal.setitimer(signal.ITIMER_REAL, 0)
+        signal.signal(signal.SIGALRM, old)
+
+
+OWN_EXCEPTIONS = {'TransformationError', 'LatticeError', 'MissingLatticeOptError',
+                  'ParseMCNPCellError', 'MacroBodyError', 'CellConversionError',
+                  'SurfaceConversionError', 'NotImplementedError'}
+NAMING_MESSAGES = ('Planes "P" expect', 'The type of this surface does not exist',
+                   'same sign', 'no ranges specified', 'too many ranges',
+                   'is not an integer', 'needs exactly 2', 'out of range subsurface',
+                   'Unexpected number of parameters')
+
+
+def names_problem(exc, msg):
+    '''Does the error of a rejected run say what is wrong?  The converter's own
+    exception classes and its worded ValueErrors/IndexErrors do; an exception
+    raised by Python itself (IndexError: list index out of range, TypeError:
+    _sphere() missing ..., KeyError: 't', StopIteration, AssertionError,
+    ZeroDivisionError, unpacking ValueErrors) does not.'''
+    if exc in OWN_EXCEPTIONS:
+        return True
+    return any(text in msg for text in NAMING_MESSAGES)
+
+
+ANONYMOUS_CLASS = {'surface_arity': 'anonymous_error_surface_arity',
+                   'tr_card_arity': 'anonymous_error_tr_arity',
+                   'fill_array_len': 'anonymous_error_fill_surplus',
+                   'fill_array_surplus_tr': 'anonymous_error_fill_surplus',
+                   'lattice_nsurf': 'anonymous_error_hex_planes',
+                   'hex_nonprism': 'anonymous_error_hex_planes',
+                   'cone_selector': 'cone_selector_not_unit'}
+
+
 def impl_deck(deck):
-    with warnings.catch_warnings():
-        warnings.simplefilter('ignore')
-        conv = impl.convert(G.render(deck), G.cli_args(deck),
-                            keep_stdout=False)
+    conv = convert_watchdog(G.render(deck), G.cli_args(deck))
     if conv.ok:
         return ('ok', None), conv
     return ('err', G.err_of(conv.exc, conv.msg), conv.exc, conv.msg[:200]), conv
@@ -685,13 +761,18 @@ def run(res, tier, seed, proofs_ok):
 
     # ---- 1. known-finding witnesses --------------------------------------
     for cls, (text, args) in WITNESSES.items():
-        with warnings.catch_warnings():
-            warnings.simplefilter('ignore')
-            conv = impl.convert(text, args, keep_stdout=False)
-        res.count('witness:' + cls + (':accepted' if conv.ok else ':rejected'))
-        if conv.ok:
+        conv = convert_watchdog(text, args, 3.0 if "hang" in cls else 8.0)
+        still = conv.ok
+        if cls.startswith('anonymous_error'):
+            still = (not conv.ok) and not names_problem(conv.exc, conv.msg)
+        elif 'hang' in cls:
+            still = conv.exc == 'WatchdogTimeout'
+        res.count('witness:' + cls + (':still-fails' if still else ':repaired'))
+        if still:
             res.violation('impl-violation',
-                          f'malformed deck converted normally ({cls})',
+                          f'witness of {cls}: ' + (
+                              'converted normally' if conv.ok else
+                              f'{conv.exc}: {conv.msg[:80]}'),
                           {'input': {'deck_text': text, 'args': args}},
                           cls=cls, found_input=True)
 
@@ -991,8 +1072,22 @@ def run(res, tier, seed, proofs_ok):
                           f'faulted deck ({cls}: {where}) converted normally',
                           payload, cls=classify(cls, where, deck),
                           found_input=True)
-        if cls is not None and out[0] == 'err' and out[2] == 'SystemExit':
-            pass
+        if out[0] == 'err' and out[2] == 'WatchdogTimeout':
+            res.violation('impl-violation',
+                          f'the conversion does not end ({cls}: {where})',
+                          payload, cls=('hex_lattice_nonprism_hang'
+                                        if cls == 'hex_nonprism' else None),
+                          found_input=True)
+        elif cls is not None and cls not in G.NEUTRAL and out[0] == 'err' \
+                and not names_problem(out[2], out[3]):
+            res.count(f'anonymous:{cls}:{out[2]}')
+            res.violation('impl-violation',
+                          f'faulted deck ({cls}: {where}) is rejected by an '
+                          f'error that does not name the problem: {out[2]}: '
+                          f'{out[3][:80]}', payload,
+                          cls=ANONYMOUS_CLASS.get(cls), found_input=True)
+        if cls in G.SWEEP_ONLY:
+            continue
         deck_cases.append(cpair(G.cdeck(deck), G.cres(out, lambda _v: 'tt')))
         deck_metas.append((deck, cls, where, out))
         if len(res.samples) < 3 and cls is not None:
